@@ -105,6 +105,10 @@ func Main(args []string) int {
 
 func runDir(id string) string { return filepath.Join(BuildDir, "run", id) }
 
+// RunDir is the per-run scratch directory of a property (recreated by every parent run);
+// child logs, race-detector logs etc. live here.
+func RunDir(id string) string { return runDir(id) }
+
 func parentMain(p *Property, tier Tier, seed int64) int {
 	start := time.Now()
 	dir := runDir(p.ID)
@@ -274,6 +278,9 @@ func runChild(self string, p *Property, tier Tier, seed int64, batch, nb int, ti
 	cmd.Stdout = outF
 	cmd.Stderr = errF
 	cmd.Env = append(os.Environ(), "GOTRACEBACK=all", "GOMEMLIMIT=6GiB")
+	if p.ChildEnv != nil {
+		cmd.Env = append(cmd.Env, p.ChildEnv(tier)...)
+	}
 	cmd.SysProcAttr = &syscall.SysProcAttr{Setpgid: true}
 	if err := cmd.Start(); err != nil {
 		return nil, nil, "child-start:" + err.Error()
